@@ -20,6 +20,22 @@ CHECKS = {
              'the unit, capacity and no-growth clauses for all numeric values. '
              'Bounds (providers, classes, consumers) per family in evidence.',
         ref='DESIGN.md section 5 C01'),
+    'C02': dict(
+        text='Bounded symbolic model checking: on every path of the real GET '
+             '/allocation_candidates over a symbolic state z3 proves the '
+             'placement clauses (per-class totals, each group in full on its '
+             'mapped provider) and the provider_summaries values, and each '
+             'returned candidate is claimed by running the real PUT '
+             '/allocations in the same path: no rejecting PUT path may be '
+             'feasible.',
+        ref='DESIGN.md section 5 C02'),
+    'C20': dict(
+        text='Bounded symbolic model checking: unlimited and limit=1..M+1 '
+             'requests run in one path over a symbolic state; random.sample/'
+             'shuffle are replaced by arbitrary selections explored as '
+             'decisions, so every seed is covered; z3 proves count, subset, '
+             'distinctness, prefix (no randomisation) and summary coverage.',
+        ref='DESIGN.md section 5 C20'),
     'C03': dict(
         text='Bounded symbolic model checking against a relational oracle: '
              'for each (topology, query) family every path of the real GET '
